@@ -517,6 +517,87 @@ class CFG(object):
             cur = prev[cur]
         return path[::-1]
 
+    def flag_variables(self):
+        """Local names that are only ever assigned the literals True / False (loop-control flags such as `restart_alt_loop`)."""
+        if getattr(self, "_flags", None) is not None:
+            return self._flags
+        vals = {}
+        for n, d in self.g.nodes(data=True):
+            strong, weak = self.defs_of(n)
+            st = d["ast"]
+            for v in strong | weak:
+                okf = d["kind"] == "stmt" and isinstance(st, ast.Assign) and len(st.targets) == 1 and isinstance(st.targets[0], ast.Name) \
+                    and isinstance(st.value, ast.Constant) and isinstance(st.value.value, bool)
+                vals.setdefault(v, []).append(okf)
+        self._flags = set(v for v, oks in vals.items() if all(oks))
+        return self._flags
+
+    def path_avoiding_flag_aware(self, src, dst, avoid, with_exc=False):
+        """path_avoiding that does not follow branches contradicted by a flag variable whose value is known along the path: the search runs over
+        (node, known flag values); `flag = True` sets, a test `if flag` / `if not flag` filters.  Removes the infeasible paths of the
+        `flag = True; break ... if flag: break` idiom."""
+        from collections import deque
+        flags = self.flag_variables()
+        if not flags:
+            return self.path_avoiding(src, dst, avoid, with_exc=with_exc)
+        avoid = set(avoid)
+
+        def step_state(n, st):
+            d = self.g.nodes[n]
+            a = d["ast"]
+            if d["kind"] == "stmt" and isinstance(a, ast.Assign) and len(a.targets) == 1 and isinstance(a.targets[0], ast.Name) and a.targets[0].id in flags:
+                st = dict(st)
+                st[a.targets[0].id] = a.value.value
+                return frozenset(st.items())
+            return st if isinstance(st, frozenset) else frozenset(st.items())
+
+        def edge_feasible(n, e, st):
+            d = self.g.nodes[n]
+            if d["kind"] != "cond" or e.get("label") not in (True, False):
+                return True
+            t = d["ast"]
+            neg = False
+            while isinstance(t, ast.UnaryOp) and isinstance(t.op, ast.Not):
+                t, neg = t.operand, not neg
+            if isinstance(t, ast.Name) and t.id in flags:
+                known = dict(st).get(t.id)
+                if known is not None:
+                    return (known != neg) == e["label"]
+            return True
+
+        s0 = step_state(src, frozenset())
+        start = (src, s0)
+        prev = {start: None}
+        dq = deque([start])
+        goal = None
+        while dq:
+            cur = dq.popleft()
+            n, st = cur
+            if n == dst and cur != start:
+                goal = cur
+                break
+            for m in self.g.successors(n):
+                e = self.g[n][m]
+                if not with_exc and e["kind"] == "exc":
+                    continue
+                if not edge_feasible(n, e, dict(st)):
+                    continue
+                if m in avoid and m != dst:
+                    continue
+                nxt = (m, step_state(m, dict(st)))
+                if nxt in prev:
+                    continue
+                prev[nxt] = cur
+                dq.append(nxt)
+        if goal is None:
+            return None
+        path = []
+        cur = goal
+        while cur is not None:
+            path.append(cur[0])
+            cur = prev[cur]
+        return path[::-1]
+
     def loop_nodes(self, head):
         """Natural loop of `head`: head plus every node that reaches a back-edge source without passing through head."""
         cache = self.__dict__.setdefault("_loopnodes", {})
